@@ -363,6 +363,21 @@ func c07Gen(tier string, rng *rand.Rand) []c07Case {
 			cs = append(cs, c)
 		}
 	}
+	// streams that end exactly on the boundary of a full read (the loops read into a 4096-byte buffer): the last
+	// read returns exactly 4096 bytes and nothing follows
+	for _, side := range sides {
+		for _, spec := range []struct{ max, psize, total int }{{4096, 4096, 4096}, {10485760, 8192, 8192}, {10485760, 4096, 8192}, {64, 64, 4096}, {300, 32, 4096}, {4096, 2048, 8192}, {10485760, 1024, 4096}} {
+			c := c07Case{Side: side, Max: spec.max, BadAt: -1, Kind: "legal/full-reads"}
+			var stream []byte
+			for k := 0; len(stream) < spec.total; k++ {
+				p := mkPacket(rng, spec.psize, k)
+				c.Sent = append(c.Sent, p)
+				stream = append(stream, p...)
+			}
+			c.Chunks = toB(partition(rng, stream, "coalesced"))
+			cs = append(cs, c)
+		}
+	}
 	return cs
 }
 
@@ -379,6 +394,7 @@ func init() {
 			Shard:   80,
 			Workers: 1, // maxPackageLength is process-global
 			Gen:     c07Gen, Run: c07Run, Coq: c07Coq,
+			Extra:   c07Reconnect,
 			RunAll: func(cs []c07Case) [][]Failure {
 				fails := make([][]Failure, len(cs))
 				byMax := map[int][]int{}
